@@ -22,7 +22,7 @@ def run(project, rep):
     rep.run(Z.z_r2_naive, project, rep)
     rep.run(Z.z_r3_writer_shape, project, rep)
     rep.run(L.l_r3_datetime, project, rep)
-    rep.run(Z.z_r4_conversion, project, rep)
+    rep.run(Z.z_r4_conversion, project, rep, utc_label=True)
     rep.run(Z.z_r5_offset_sign, project, rep)
     rep.run(Z.z_r6_carrier_date, project, rep)
     rep.run(Z.z_r7_aware_values_kept, project, rep)
